@@ -181,6 +181,8 @@ type hostListener struct {
 	conns []*hostConn
 	// hangup: the host closes every connection right after accepting it, before sending a byte
 	hangup bool
+	// slow: the host reads through a small receive buffer with pauses (a busy or distant host)
+	slow bool
 }
 
 func newHostListener() *hostListener { return newHostListenerOn(net.IPv4(127, 0, 0, 1)) }
@@ -227,10 +229,17 @@ func (h *hostListener) poll() int {
 			n++
 			continue
 		}
+		slow := h.slow
+		if tc, ok := c.(*net.TCPConn); ok && slow {
+			tc.SetReadBuffer(64 * 1024)
+		}
 		go func() {
 			defer close(hc.done)
 			buf := make([]byte, 65536)
 			for {
+				if slow {
+					time.Sleep(time.Millisecond)
+				}
 				k, err := c.Read(buf)
 				hc.mu.Lock()
 				hc.buf = append(hc.buf, buf[:k]...)
